@@ -9,6 +9,8 @@ import ChibiVerif.Lemmas.LinkageView
 namespace ChibiVerif.Linkage
 open ChibiVerif.Spec.Linkage
 
+variable [Rules]
+
 /-- `find_func(g)->uses` -/
 def U (gs : List Obj) (g : Name) : Option (List Sym) := (findFunc gs g).map (·.uses)
 
@@ -64,6 +66,16 @@ def stepU (d : Decl) (k : Nat) (g : Name) (cur : Option (List Sym)) : Option (Li
   | .func f _ _ _ _ (some b) => if g = f then some (bodyLabels (k + 2) b) else cur
   | .obj .. => cur
 
+theorem rootIfO_uses (o : Obj) : (rootIfO o).uses = o.uses := by
+  unfold rootIfO; split
+  · rfl
+  · split <;> rfl
+
+theorem redeclFlags_uses (e i : Bool) (o : Obj) : (redeclFlags e i o).uses = o.uses := by
+  unfold redeclFlags; split
+  · dsimp only; split <;> split <;> rfl
+  · rfl
+
 theorem U_declFunctionHead {st st' : PState} {f : Name} {s e i b : Bool}
     (h : declFunctionHead st f s e i b = .ok st') (g : Name) :
     U st'.globals g = if g = f then some ((U st.globals f).getD []) else U st.globals g := by
@@ -76,15 +88,16 @@ theorem U_declFunctionHead {st st' : PState} {f : Name} {s e i b : Bool}
       · cases h
       · cases h
         dsimp only
-        rw [U_updFunc keepsId_rootIf (by intro o; split <;> rfl),
-          U_updFunc (u := fun o => { o with isDefinition := o.isDefinition || b }) (fun _ => ⟨rfl, rfl⟩) (fun _ => rfl)]
+        rw [U_updFunc keepsId_rootIf rootIfO_uses,
+          U_updFunc (u := fun o => { o with isDefinition := o.isDefinition || b }) (fun _ => ⟨rfl, rfl⟩) (fun _ => rfl),
+          U_updFunc (keepsId_redeclFlags e i) (redeclFlags_uses e i)]
         by_cases hg : g = f
         · subst hg; simp [U, hfn]
         · simp [hg]
   · rename_i hfn
     cases h
     dsimp only
-    rw [U_updFunc keepsId_rootIf (by intro o; split <;> rfl)]
+    rw [U_updFunc keepsId_rootIf rootIfO_uses]
     by_cases hg : g = f
     · subst hg
       rw [show U st.globals g = none from by simp [U, hfn]]
@@ -102,7 +115,7 @@ theorem U_declStep {st st' : PState} {d : Decl} (h : declStep st d = .ok st') (g
     · cases h
     · rename_i st1 h1
       have e1 := U_declFunctionHead h1 g
-      have n1 := (dataOf_declFunctionHead h1).2
+      have n1 := (dataOf_declFunctionHead h1).2.1
       cases body with
       | none =>
         cases h
@@ -117,13 +130,13 @@ theorem U_declStep {st st' : PState} {d : Decl} (h : declStep st d = .ok st') (g
         · cases h
         · rename_i st2 uses hp
           cases h
-          obtain ⟨g2, n2, l2⟩ := bodyItems_exact items hp
+          obtain ⟨g2, n2, l2, _⟩ := bodyItems_exact items hp
           dsimp only
           simp only [stepU]
           -- `find_func(f)` succeeds in st2
           have hU2 : ∀ g', U st2.globals g' = U st1.globals g' := by
             intro g'
-            rw [g2, U_data_append (bodyNews_data _ _)]
+            rw [g2, U_data_append (bodyNews_data _ _ _ _)]
             simp only [newAnon]
             rw [U_updFunc (u := addRefsO (bodyFnRefs items)) (fun _ => ⟨rfl, rfl⟩) (fun _ => rfl),
               U_cons_data rfl, U_cons_data rfl]
@@ -187,9 +200,10 @@ theorem U_declStep {st st' : PState} {d : Decl} (h : declStep st d = .ok st') (g
         simp only [U]
         rw [hupd _ _ (fun o => { o with uses := p.2 }) (data_pred _) (fun _ => ⟨rfl, rfl⟩), g1,
           findFunc_data_append (fun o ho => (initNews_spec items _ o ho).1)]
-        have := congrFun (U_fnEffect none (varObj 0 x s e t ty (some []) :: st.globals) (initFnRefs items)) g
+        have := congrFun (U_fnEffect none (varObj 0 x (s || (Rules.externInherits && e && prevStatic st.globals x)) e t ty (some []) :: st.globals) (initFnRefs items)) g
         simp only [U] at this
-        rw [show (varObj 0 x s e t ty (some []) : Obj) = { sym := Sym.named x, isStatic := s, isTls := t, hasInit := true, ty := ty } from rfl] at this
+        rw [show (varObj 0 x (s || (Rules.externInherits && e && prevStatic st.globals x)) e t ty (some []) : Obj) =
+          { sym := Sym.named x, isStatic := s || (Rules.externInherits && e && prevStatic st.globals x), isTls := t, hasInit := true, ty := ty } from rfl] at this
         rw [this, findFunc_cons_data rfl]
 
 /-! ### the identifiers among the labels -/
